@@ -111,11 +111,15 @@ func isASCII(s string) bool {
 
 // ---------------------------------------------------------------- events
 
-var numberPool = []string{"0", "1", "-1", "5", "12", "123", "12345", "-7", "42", "100", "1.5", "1e3", "9223372036854775807", "1262304000"}
+var numberPool = []string{"0", "1", "-1", "5", "12", "123", "12345", "-7", "42", "100", "1.5", "1e3", "9223372036854775807", "1262304000",
+	// far ends of the range the model decides (18 digits): against a rule value near the int64 maximum the
+	// difference of the operands does not fit into an int64
+	"-999999999999999999", "-900000000000000001", "999999999999999999"}
 
 var tsPool = []string{
 	"2010-01-01T00:00:00Z", "2009-12-31T23:59:59.999999999Z", "2010-01-01T00:00:00.000000001Z", "2010-01-01T03:00:00+03:00",
 	"2000-01-01T00:00:00Z", "2011-01-01T00:00:00Z", "2150-06-01T00:00:00Z", "2010-01-01T01:00:00Z", "2009-12-31T23:00:00Z",
+	"1700-01-01T00:00:00Z", // more than 2^63 ns before the latest rule value
 	"2010-01-01 00:00:00", "2010/01/01 00:00:00", "1262304000", "1262304001", "1262303999", "qwe", "2010-13-01T00:00:00Z", "",
 }
 
@@ -419,6 +423,9 @@ func genLeaf(t *rapid.T, label string, paths []*pathInfo, allowNow bool) *vkit.J
 					v = 0
 				}
 			}
+		}
+		if op == "int_val_cmp" && rapid.IntRange(0, 7).Draw(t, label+"/huge") == 0 {
+			v = rapid.SampledFrom([]int{9223372036854775807, 9223372036854775806, 8500000000000000000, 999999999999999999}).Draw(t, label+"/hugev")
 		}
 		rule.Set("value", jint(v))
 	case "ts_cmp":
